@@ -792,7 +792,15 @@ static void alg1(World& w, const Iv& i, bool full)
       if (!full && !w.rng.chance(1, 12)) continue;
       inc.add(Arr().add(a).add(b).add(c->includes(cd.dec(a), cd.dec(b)) ? 1 : 0));
     }
-  e.kv("lim", lim).kv("inc", inc);
+  // interval < value, > value, <= value, >= value
+  Arr cmp;
+  for (long x = cd.lowest(); x <= cd.highest(); ++x)
+  {
+    if (!full && !w.rng.chance(1, 3)) continue;
+    double v = cd.dec(x);
+    cmp.add(Arr().add(x).add((*c < v) ? 1 : 0).add((*c > v) ? 1 : 0).add((*c <= v) ? 1 : 0).add((*c >= v) ? 1 : 0));
+  }
+  e.kv("lim", lim).kv("inc", inc).kv("cmp", cmp);
   tracer().emit(e);
 }
 static void alg2(World& w, const Iv& i, const Iv& j)
@@ -807,6 +815,8 @@ static void alg2(World& w, const Iv& i, const Iv& j)
   std::unique_ptr<ConstraintInterface> r(a & b);
   e.kv("andacc", accArr(cd, *r)).kv("andemp", r->isEmpty() ? 1 : 0);
   e.kv("after", Arr().add(encIv(cd, a)).add(encIv(cd, b)));
+  // comparisons between intervals: equality (bounds and flags), difference, inclusion in both directions
+  e.kv("eq", (a == b) ? 1 : 0).kv("ne", (a != b) ? 1 : 0).kv("le", Arr().add((a <= b) ? 1 : 0).add((b <= a) ? 1 : 0));
   IntervalConstraint a2(a);
   a2 &= b;
   e.kv("iandacc", accArr(cd, a2)).kv("iandemp", a2.isEmpty() ? 1 : 0).kv("jafter", encIv(cd, b));
